@@ -51,6 +51,40 @@ Section Sim.
   Notation evalg := (eval V sem).
   Notation stepg := (step V sem).
 
+  Lemma fresh_at ns e pre n post em : ssa V ns e -> ns = pre ++ n :: post -> evalg pre e = Some em ->
+    (forall y, In y (n_outs n) -> em y = None) /\ NoDup (n_outs n).
+  Proof.
+    intros [Hnd Hf] -> Hpre. unfold defs in *. rewrite flat_map_app in Hnd, Hf. simpl in Hnd, Hf. split.
+    - intros y Hy. apply (eval_undefined V sem pre e em y Hpre).
+      + apply Hf. apply in_or_app. right. apply in_or_app. now left.
+      + intro Hp. eapply NoDup_app_disj; eauto. apply in_or_app. now left.
+    - apply NoDup_app_r in Hnd. now apply NoDup_app_l in Hnd.
+  Qed.
+
+  Lemma lookups_cons_inv (e : env V) u us vs : lookups V e (u :: us) = Some vs ->
+    exists v vr, e u = Some v /\ lookups V e us = Some vr /\ vs = v :: vr.
+  Proof.
+    simpl. destruct (e u) as [v|]; [|discriminate]. destruct (lookups V e us) as [vr|]; [|discriminate].
+    intro H. injection H as <-. eauto.
+  Qed.
+
+  Lemma lookups_app_inv (e : env V) us ws vs : lookups V e (us ++ ws) = Some vs ->
+    exists v1 v2, lookups V e us = Some v1 /\ lookups V e ws = Some v2 /\ vs = v1 ++ v2.
+  Proof.
+    revert vs. induction us as [|u r IH]; simpl; intros vs H; [exists [], vs; auto|].
+    destruct (e u) as [v|]; [|discriminate]. destruct (lookups V e (r ++ ws)) as [vr|] eqn:E; [|discriminate].
+    injection H as <-. destruct (IH _ eq_refl) as (v1 & v2 & -> & -> & ->). exists (v :: v1), v2. auto.
+  Qed.
+
+  Lemma lookups_Forall (P : V -> Prop) (e : env V) xs vs : lookups V e xs = Some vs ->
+    (forall u w, In u xs -> e u = Some w -> P w) -> Forall P vs.
+  Proof.
+    revert vs. induction xs as [|x r IH]; simpl; intros vs H HP.
+    - injection H as <-. constructor.
+    - destruct (e x) as [v|] eqn:Ex; [|discriminate]. destruct (lookups V e r) as [vr|]; [|discriminate].
+      injection H as <-. constructor; [apply (HP x); auto | apply IH; auto]. intros u w Hu. apply HP. now right.
+  Qed.
+
   Section General.
     Variable Inv : env V -> env V -> Prop.
     Variable keep : node -> bool.
@@ -61,6 +95,7 @@ Section Sim.
       (forall ef, evalg ns e = Some ef ->
          (forall pre n post em em' e1, ns = pre ++ n :: post -> evalg pre e = Some em ->
             (forall x a, em x = Some a -> ef x = Some a) -> Inv em em' -> stepg em n = Some e1 ->
+            (forall x a, e1 x = Some a -> ef x = Some a) ->
             if keep n then exists e1', stepg em' (tr n) = Some e1' /\ Inv e1 e1' else Inv e1 em') /\
          (forall ef' o, Inv ef ef' -> lookups V ef outs = Some o ->
             exists o', lookups V ef' outs' = Some o' /\ Forall2 veq o o')) ->
@@ -77,9 +112,11 @@ Section Sim.
           assert (Hle : forall x a, em x = Some a -> ef x = Some a).
           { apply (prefix_le_final V sem pre (n :: post) e em ef); [now rewrite <- Hsplit | exact Hpre |].
             simpl. now rewrite Es. }
-          pose proof (Hstep pre n post em em' e1 Hsplit Hpre Hle Hi Es) as Hk.
           assert (Hpre1 : evalg (pre ++ [n]) e = Some e1) by (rewrite eval_app, Hpre; simpl; now rewrite Es).
           assert (Hsplit1 : ns = (pre ++ [n]) ++ post) by (rewrite <- app_assoc; exact Hsplit).
+          assert (Hle1 : forall x a, e1 x = Some a -> ef x = Some a).
+          { apply (prefix_le_final V sem (pre ++ [n]) post e e1 ef); [now rewrite <- Hsplit1 | exact Hpre1 | exact Hpost]. }
+          pose proof (Hstep pre n post em em' e1 Hsplit Hpre Hle Hi Es Hle1) as Hk.
           simpl. destruct (keep n).
           + destruct Hk as (e1' & Es' & Hi1). simpl. rewrite Es'. eapply IH; eauto.
           + eapply IH; eauto. }
